@@ -228,10 +228,30 @@ def load(cls, blob):
     return r, [str(x.message) for x in w]
 
 
-VARIANTS = ['str-lf', 'str-crlf', 'bytes-lf', 'bytearray-lf', 'bytes-crlf', 'surrounded-lf', 'surrounded-crlf']
+VARIANTS = ['str-lf', 'str-crlf', 'bytes-lf', 'bytearray-lf', 'bytes-crlf', 'surrounded-lf', 'surrounded-crlf',
+            # the radix-64 body wrapped at another width by a mail client or another producer (RFC 4880 6.3 only caps lines at 76 characters;
+            # the lines need not hold a multiple of four characters)
+            'rewrapped-1-lf', 'rewrapped-30-lf', 'rewrapped-63-crlf', 'rewrapped-70-lf', 'rewrapped-75-lf', 'rewrapped-76-crlf']
+
+
+def rewrap(s, width):
+    lines = s.split('\n')
+    blank = lines.index('')
+    end = next(i for i, ln in enumerate(lines) if ln.startswith('-----END'))
+    crc = [ln for ln in lines[blank + 1:end] if ln.startswith('=') and len(ln) == 5]
+    body = ''.join(ln for ln in lines[blank + 1:end] if ln not in crc)
+    chunks = [body[i:i + width] for i in range(0, len(body), width)]
+    while len(chunks) > 1 and chunks[-1].startswith('='):
+        # (observation, not claimed: PGPy refuses armor in which the padding characters stand alone on a line - outside the quantifier of the
+        # property, which is about the line endings and surroundings of PGPy's own armor; the pad is kept with the characters before it here)
+        chunks[-2:] = [chunks[-2] + chunks[-1]]
+    return '\n'.join(lines[:blank + 1] + chunks + crc + lines[end:])
 
 
 def variant(s, v):
+    if v.startswith('rewrapped'):
+        s = rewrap(s, int(v.split('-')[1]))
+        v = 'str-' + v.split('-')[2]
     if v.startswith('surrounded'):
         s = 'Some text before the block\nX-Header: value\n\n' + s + 'trailing text\n-- \nsignature line\n'
     if v.endswith('crlf'):
@@ -534,7 +554,7 @@ def component(tier='quick', seed=0, known=()):
                                                     3 if tier == 'quick' else 5, len(cor)),
         'cases': cases,
         'distinct_nontrivial': blocks * 12 + corruptions - harmless + nwk + nhp,
-        'rule': 'cases = clause evaluations: per object 5 independent-reader clauses + 7 reloads; per corrupted block one '
+        'rule': 'cases = clause evaluations: per object 5 independent-reader clauses + 13 reloads; per corrupted block one '
                 'evaluation per (position, replacement); 2 per wrong-kind (text kind, loader) pair; 2 per non-ASCII '
                 'header value; 2 per ASCII header probe (%d header sets with awkward values). non-trivial = all of them except corruptions that leave the payload unchanged and the '
                 'D11 header probes' % len(HEADER_PROBES),
@@ -616,3 +636,55 @@ def short_crc_component(tier='quick', seed=0, known=()):
     return {'name': 'C10/armored-exports-with-a-short-checksum', 'bound': 'one deterministically found export with CRC-24 < 0x010000 per kind of object (%s)' % ', '.join(makers),
             'cases': cases, 'distinct_nontrivial': cases, 'rule': 'one case = one object whose checksum has a zero leading octet; all are non-trivial',
             'exhaustive': True, 'samples': samples, 'violations': violations, 'known_hits': []}
+
+
+def header_isolation_component(tier='quick', seed=0, known=()):
+    """Armor headers belong to ONE object: a header given to an object (assignment to ascii_headers[...], the charset of a message) shows in
+    that object's armor and in no other object's - not in a second object of the same class made before or after, not in the public key
+    derived from a private key (and the other way round), not in a copy, not in the object read back from binary."""
+    import copy as _copy
+    import pgpy
+    from pgpy.constants import PubKeyAlgorithm, EllipticCurveOID, KeyFlags, HashAlgorithm, SymmetricKeyAlgorithm, CompressionAlgorithm
+    warnings.simplefilter('ignore')
+    key = pgpy.PGPKey.new(PubKeyAlgorithm.EdDSA, EllipticCurveOID.Ed25519)
+    key.add_uid(pgpy.PGPUID.new('Header isolation'), usage={KeyFlags.Certify, KeyFlags.Sign}, hashes=[HashAlgorithm.SHA256], ciphers=[SymmetricKeyAlgorithm.AES256],
+                compression=[CompressionAlgorithm.Uncompressed])
+    violations, cases = [], 0
+
+    def hdrs(o):
+        return [(k, v) for k, v in dearmor(str(o))['headers']]
+
+    def expect(what, o, want):
+        nonlocal cases
+        cases += 1
+        try:
+            got = hdrs(o)
+            if got != want:
+                violations.append({'case': {'situation': what}, 'what': 'armor headers %r, expected %r' % (got, want)})
+        except Exception as ex:
+            violations.append({'case': {'situation': what}, 'what': 'harness error: %s: %s' % (type(ex).__name__, str(ex)[:60])})
+    try:
+        before = pgpy.PGPMessage.new('made before')
+        m = pgpy.PGPMessage.new('carries a header')
+        m.ascii_headers['Comment'] = 'only this message'
+        after = pgpy.PGPMessage.new('made after')
+        sig = key.sign('text')
+        expect('the message that was given the header', m, [('Comment', 'only this message')])
+        expect('a message made before', before, [])
+        expect('a message made after', after, [])
+        expect('a signature made after', sig, [])
+        expect('the message read back from its binary export', pgpy.PGPMessage.from_blob(bytes(m)), [])
+        c = _copy.copy(m)
+        c.ascii_headers['Version'] = 'only the copy'
+        expect('the original after its copy was given another header', m, [('Comment', 'only this message')])
+        pub = key.pubkey
+        pub.ascii_headers['Comment'] = 'only the public key'
+        expect('the private key after the derived public key was given a header', key, [])
+        key.ascii_headers['Version'] = 'only the private key'
+        expect('the derived public key after the private key was given a header', pub, [('Comment', 'only the public key')])
+        expect('another key made afterwards', pgpy.PGPKey.from_blob(bytes(pub))[0], [])
+    except Exception as ex:
+        violations.append({'case': {'situation': 'setup'}, 'what': 'harness error: %s: %s' % (type(ex).__name__, str(ex)[:80])})
+    return {'name': 'C10/armor-headers-belong-to-one-object', 'bound': '%d situations (objects made before / after, copy, binary read-back, private key and derived public key)' % cases,
+            'cases': cases, 'distinct_nontrivial': cases, 'rule': 'one case = the armor headers of one object in one situation', 'exhaustive': True,
+            'samples': [{'situation': 'the private key after the derived public key was given a header'}], 'violations': violations[:5], 'known_hits': []}
